@@ -133,6 +133,10 @@ impl IoH {
     pub fn frame_len(&self, i: usize) -> usize {
         self.parse().0[i].1
     }
+    pub fn bytes_written(&self) -> usize {
+        self.sync();
+        self.log.borrow().len()
+    }
     pub fn torn(&self) -> usize {
         self.parse().1
     }
